@@ -94,6 +94,11 @@ def scenario(draw, tier="quick"):
         r = draw(st.integers(0, nr - 1))
         removed.add(r)
         steps.append({"dt": 500, "k": "remove", "r": r, "af": draw(st.sampled_from([1.0, 2.5, 10, 33.3]))})
+        # further passive fills AFTER the removal (fills before it were reduced, these are not)
+        for _ in range(draw(st.integers(0, 2))):
+            r2 = draw(st.sampled_from([x for x in range(nr) if x != r]))
+            steps.append({"dt": 500, "k": "book", "rc": [{"r": r2, "trd": [[max(0, min(nt - 1, mids[r2] + draw(st.integers(-4, 4)))),
+                                                                           gen.size_c(draw, 2, 20000) / 100]]}]})
     if spec["bsp_market"] and draw(st.booleans()):
         prices = world.ladder_prices(spec)
         steps.append({"dt": 500, "k": "inplay", "bet_delay": 1, "status": "OPEN", "bump": True,
